@@ -104,6 +104,96 @@ def reverse_shift_mismatches(F):
     return hits, seen
 
 
+def bit_provenance(t, params):
+    """Where each of the 64 result bits of a term comes from: 0, 1, ('n', k) = bit k of parameter n, or None (not a copy).
+    Casts, shifts by constants, and / or / xor with decidable bits, `from` / `into`, and reverse_bits / swap_bytes of a stated width
+    are followed; anything else gives None for every bit.  A domain for bit permutations, nothing more."""
+    import re
+    W_ = {"u8": 8, "u16": 16, "u32": 32, "u64": 64, "usize": 64}
+    unknown = [None] * 64
+    if not isinstance(t, tuple) or not t:
+        return unknown
+    k = t[0]
+    if k in ("ref", "deref"):
+        return bit_provenance(t[1], params)
+    if k == "param" and t[1] in params:
+        return [(t[1], i) for i in range(64)]
+    if k == "const" and isinstance(t[1], int) and t[1] >= 0:
+        return [(t[1] >> i) & 1 for i in range(64)]
+    if k == "cast":
+        v = bit_provenance(t[1], params)
+        w = W_.get(t[2]) if len(t) > 2 else None
+        if w is None:
+            return unknown
+        return [v[i] if i < w else 0 for i in range(64)]
+    if k == "bin":
+        a = bit_provenance(t[2], params)
+        if t[1] in ("Shl", "Shr"):
+            c = core(t[3])
+            if c[0] != "const" or not isinstance(c[1], int) or not 0 <= c[1] < 64:
+                return unknown
+            n_ = c[1]
+            return [a[i - n_] if i >= n_ else 0 for i in range(64)] if t[1] == "Shl" else [a[i + n_] if i + n_ < 64 else 0 for i in range(64)]
+        b = bit_provenance(t[3], params)
+        out = []
+        for x, y in zip(a, b):
+            mixed = ("mix",) if (x is not None and y is not None) else None      # a known function of input bits that is not a copy
+            if t[1] == "BitOr":
+                out.append(y if x == 0 else x if y == 0 else (1 if 1 in (x, y) else (x if x == y else mixed)))
+            elif t[1] == "BitAnd":
+                out.append(0 if 0 in (x, y) else y if x == 1 else x if y == 1 else (x if x == y else mixed))
+            elif t[1] == "BitXor":
+                out.append(y if x == 0 else x if y == 0 else mixed)
+            elif t[1] == "Add":
+                out.append(y if x == 0 else x if y == 0 else None)      # no carries while one side is 0 at every position
+            else:
+                return unknown
+        if t[1] == "Add" and any(x not in (0,) and y not in (0,) for x, y in zip(a, b)):
+            return unknown
+        return out
+    if k == "call":
+        last = t[1].split("::")[-1].split("<")[0]
+        if last in ("from", "into") and len(t[2]) == 1:
+            return bit_provenance(t[2][0], params)
+        mt = re.search(r"impl ([ui])(\d+|size)>", t[1])
+        if last in ("reverse_bits", "swap_bytes") and mt and len(t[2]) == 1:
+            w = 64 if mt.group(2) == "size" else int(mt.group(2))
+            v = bit_provenance(t[2][0], params)
+            if w > 64:
+                return unknown
+            if last == "reverse_bits":
+                return [v[w - 1 - i] if i < w else 0 for i in range(64)]
+            return [v[(w // 8 - 1 - i // 8) * 8 + i % 8] if i < w else 0 for i in range(64)]
+    return unknown
+
+
+def check_reverse_low(ctx, F, tag):
+    """reverse_low(n, bits) is the low `bits` bits of n in reverse order: the full reversal of n shifted down by 64 - bits.  The
+    word that is shifted is read bit by bit (bit_provenance): bit i must be bit 63 - i of n.  A reversal assembled from narrower
+    pieces with one conversion in the wrong place puts a piece in the wrong half."""
+    fn = "bits::reverse_low"
+    if not F.has_body(fn):
+        return
+    b = F.body(fn)
+    t = core(b.term_of_local(0))
+    env = {}
+    ok, detail = None, "result %s" % tstr(t)[:90]
+    if t[0] == "bin" and t[1] == "Shr" and m(Bin("Sub", Const(64), Param(1)), t[3]):
+        v = bit_provenance(t[2], {0})
+        wrong = [(i, v[i]) for i in range(64) if v[i] != (0, 63 - i)]
+        if not wrong:
+            ok = True
+            detail = "the shifted word is n with bit i <- bit 63 - i for all 64 bits"
+        elif all(x is not None for _, x in wrong):
+            ok = False
+            i, x = wrong[0]
+            detail = "bit %d of the shifted word is %s, not bit %d of n (%d of 64 bits misplaced)" % (
+                i, "constant %d" % x if isinstance(x, int) else ("a combination of several bits of n" if x == ("mix",) else "bit %d of n" % x[1]), 63 - i, len(wrong))
+        else:
+            detail = "the shifted word is not a bit permutation the domain can read: %s" % tstr(t[2])[:80]
+    ctx.ob("C17.R6.reverse-low-is-the-reversal", fn + tag, loc(b.raw["span"]), ok, "abstract-interpretation(bit provenance)", detail, positive=ok is False)
+
+
 def check_select_lane_masks(ctx, F, sel, tag, rr, lo):
     """Portable in-word select: the two constant and-masks that cut one byte lane out of a shifted word keep every bit the lane
     can carry. (1) the byte of `n` that indexes _SELECT_IN_BYTE can be any of 0..=255: a constant mask must keep bits 0..7;
@@ -202,6 +292,7 @@ def check_config(ctx, F, tag, cfg):
     ctx.ob("C17.R9.swar-multiply-wraps", "src/bits.rs" + tag, "src/bits.rs", not swar, "dataflow",
            "overflow-checked multiplications by a word-sized constant in bits.rs (count must be 0; `overflowing_mul` / `wrapping_mul` is the form that means it): %s" % swar, nontrivial=False, positive=True)
     # ---------------- R6 reversal width
+    check_reverse_low(ctx, F, tag)
     hits, seen = reverse_shift_mismatches(F)
     ctx.ob("C17.R6.reverse-shift-width", "crate" + tag, "src/", not hits, "dataflow",
            "%d `reverse_bits() >> (K - bits)` sites; K differs from the reversed type's width at: %s" % (seen, hits), nontrivial=False)
